@@ -2406,6 +2406,8 @@ class AbstractCoalescent(ABC):
                 if recombination_rate < 0:
                     raise ValueError("Recombination rate must be non-negative.")
 
+                # do not write into the caller's object, which may be shared with other coalescents
+                self.locus_config = copy.copy(loci)
                 self.locus_config.recombination_rate = recombination_rate
 
         # population names present in the population configuration but not in the demography
